@@ -105,3 +105,11 @@ CHECKS["C05"] = dict(level="model_checking", technique="TLA+ format model Codec.
          "(Unicode incl. delimiters, quotes, CR/LF, NUL, astral; float64 bit patterns; ints to 2^70; microsecond instants 1700-2240; four dialects).",
     note="float64, Unicode and datetimes are SAMPLED, not enumerated - a TLA+ model cannot usefully quantify over them; the model contributes the format, the reserved-word universe and the oracle. NaN excluded.",
     design_ref="DESIGN.md section 5, C05")
+CHECKS["C08"] = dict(level="model_checking", technique="zone-free TLA+ spec (instants are ranks) + trace validation by TLC of histories run under time-edge themes in four process time zones",
+    text="The specification never mentions zones: instants are ranks, comparisons and stable sorting are on ranks, a point without time gets a stamp not earlier than any earlier stamp. "
+         "The binding runs C01/C03-style histories (insert, insert_multiple, update(time=static|callable), reopen, every TimeQuery operator, get_timestamps, select('time'), sorted reads) with "
+         "instants at adjacent microseconds, ties, the epoch, DST gaps/folds and the range ends 1700/2239, every input rendered in another UTC offset or as a naive local value of the same instant, "
+         "in worker processes with TZ in {UTC, America/Los_Angeles, Australia/Lord_Howe, Asia/Kathmandu}; TLC judges every call and the projection requires aware-UTC, microsecond-exact times.",
+    note="Datetimes are SAMPLED (about 200 curated instants), not enumerated; naive TimeQuery comparison values are outside the documented domain; float conversion inside the index is only exercised on the sampled instants.",
+    design_ref="DESIGN.md section 5, C08")
+NOTES = NOTES + " Known findings (unfixed, with signatures) and fixed defects are listed in known_findings.json."
